@@ -25,6 +25,28 @@ def ordered_prog(rng):
     counter = [0]
     p, cols, _o = sp.gen_sqlprog(rng, rng.choice([0, 1, 2, 3]), counter, p_slice=0.25)
     cols = set(cols)
+    if rng.random() < 0.15:
+        p, cols = sp.windowed_then_op(rng)
+    elif rng.random() < 0.3 and cols:
+        # forced: a window of a total order taken at EVERY kind of query level (plain, join, UNION / UNION ALL, already
+        # sliced), then each kind of operation on top of it; the final total sort below makes the whole list determined
+        if rng.random() < 0.6:
+            counter[0] += 1
+            other = mp.gen_leaf(rng, counter[0], sorted(cols), sp.SQL, special=0)
+            p = ("chain", p, other) if rng.random() < 0.5 else ("chain", other, p)
+            if rng.random() < 0.3:
+                p = ("un", ("dedup",), mp.DEFAULT, p)
+        p = ("un", ("sort", sp.total_sort_terms(rng, cols)), mp.DEFAULT, p)
+        a = rng.choice([0, 0, 1, 2])
+        p = ("un", ("slice", a, a + rng.choice([1, 2, 3])), mp.DEFAULT, p)
+        for _ in range(rng.choice([1, 1, 2])):
+            o, new = gen.gen_op(rng, cols, weights=[3, 1, 2, 4, 0, 1])
+            if o[0] == "sort":
+                continue
+            if o[0] == "proj" and not new:
+                continue
+            p = ("un", o, mp.DEFAULT, p)
+            cols = set(new)
     # keep at least the key columns we sort by
     terms = sp.total_sort_terms(rng, cols)
     p = ("un", ("sort", terms), mp.DEFAULT, p)
